@@ -406,7 +406,7 @@ def m_powf(ex, st, callee, args, dest_ty, frame, depth):
     return [(st, Outcome("ret", Prim("f64", m)))]
 
 
-ROUND_ORACLES = [(re.compile(r"<impl f64>::(round|ceil|floor)$"), m_f64_round), (re.compile(r"<impl f64>::powf$"), m_powf)]
+ROUND_ORACLES = [(re.compile(r"<impl f64>::(round|ceil|floor)$"), m_f64_round), (re.compile(r"<impl f64>::pow[fi]$"), m_powf)]
 
 
 def round_obligations(S):
@@ -446,7 +446,12 @@ def round_obligations(S):
             m = pw[0]["m"]
             base = ex.as_prim(pw[0]["base"]).e
             exp = ex.as_prim(pw[0]["exp"]).e
-            add("multiplier-is-ten-to-the-precision", z3.And(z3.fpEQ(base, z3.FPVal(10.0, F64)), exp == z3.fpSignedToFP(z3.RNE(), z3.BitVec("precision", 64), F64)))
+            prec = z3.BitVec("precision", 64)
+            if z3.is_bv(exp):         # an integer power (powi): the whole i64 precision must arrive, not its low bits
+                exp_ok = z3.SignExt(64 - exp.size(), exp) == prec if exp.size() < 64 else exp == prec
+            else:
+                exp_ok = exp == z3.fpSignedToFP(z3.RNE(), prec, F64)
+            add("multiplier-is-ten-to-the-precision", z3.And(z3.fpEQ(base, z3.FPVal(10.0, F64)), exp_ok))
             r = ex.as_prim(p.outcome.value).e
             pos = z3.fpGT(m, z3.FPVal(0.0, F64))
             scaled = z3.fpMul(z3.RNE(), num, m)
@@ -596,7 +601,9 @@ def replayer(o, model):
         lines, want = [], {}
         cases = [("round", "1.5", 309, 1.5), ("ceil", "-2.5", 400, -2.5), ("floor", "1.5", 330, 1.5), ("round", "1.2345", 2, 1.23), ("ceil", "1.201", 2, 1.21),
                  ("floor", "1.209", 2, 1.2), ("round", "0.0", 400, 0.0), ("round", "float!(.big)", 10, 1e300), ("ceil", "float!(.big)", 10, 1e300), ("floor", "float!(.nbig)", 10, -1e300),
-                 ("round", "2.5", 0, 3.0), ("round", "-2.5", 0, -3.0), ("floor", "-0.5", 0, -1.0), ("ceil", "0.5", 0, 1.0)]
+                 ("round", "2.5", 0, 3.0), ("round", "-2.5", 0, -3.0), ("floor", "-0.5", 0, -1.0), ("ceil", "0.5", 0, 1.0),
+                 ("round", "1234.56789", 4294967298, 1234.56789), ("floor", "1234.56789", 4294967296, 1234.56789), ("ceil", "1234.56789", 8589934593, 1234.56789),
+                 ("round", "1234.56789", -4294967294, 0.0)]
         for k, (fn, arg, prec, exp) in enumerate(cases):
             lines.append(f".r{k} = {fn}({arg}, precision: {prec})")
             want[f"r{k}"] = bits(exp)
